@@ -158,6 +158,17 @@ class World:
                     "parse(text %d) returned %s, an uncached parse returns %s" % (i, "None" if gd is None else "a tree", "None" if want is None else "a tree"))
         if gd != want:
             return ("stale-or-foreign-tree-served", "parse(text %d) returned a tree that differs from an uncached parse of the same text" % i)
+        if got is not None and self.r.random() < 0.3:
+            # the result belongs to the caller, who may change it (Tree.extend is the usual multi-file idiom):
+            # a later parse of the same text must not see that
+            try:
+                extra = self.parser().parse("model CallerAdded%d Real q; end CallerAdded%d;" % (len(self.ops), len(self.ops)), bypass_cache=True)
+                got.extend(extra)
+                for c in list(got.classes.values())[:1]:
+                    c.symbols.clear()
+                self.ctx.cover("caller-mutates-returned-tree")
+            except Exception:
+                pass
         if i in self.parsed_before:
             self.reparse_count += 1
             if before_rows is not None and before_rows == self.count_rows() and valid and not self.version.endswith(".dirty"):
@@ -294,16 +305,26 @@ class World:
         self.fault("break-layout:" + kind, file_level=True)
 
     def op_corrupt_file(self):
-        kind = self.r.choice(["garbage", "truncated", "zero-length", "delete"])
+        kind = self.r.choice(["garbage", "truncated", "zero-length", "delete", "directory"])
         if not os.path.exists(self.db):
             return
-        if kind == "delete":
+        if kind == "directory" and os.path.isdir(self.db):
+            return
+        if os.path.isdir(self.db):
+            shutil.rmtree(self.db)
+            open(self.db, "wb").close()
+        if kind == "directory":
+            # the database cannot even be opened (sqlite3.OperationalError: unable to open database file)
+            os.remove(self.db)
+            os.mkdir(self.db)
+            self.file_corrupt = True
+        elif kind == "delete":
             os.remove(self.db)
             for ext_ in ("-journal", "-wal", "-shm"):
                 if os.path.exists(self.db + ext_):
                     os.remove(self.db + ext_)
             self.file_corrupt = False
-        else:
+        if kind not in ("directory", "delete"):
             size = os.path.getsize(self.db)
             with open(self.db, "r+b") as f:
                 if kind == "garbage":
